@@ -305,4 +305,27 @@ def check(fx, rep, tier):
     rep.check(same and bool(a.get('continues')), 'R20.6', 'tokio-vs-smol|agreement', 'zlink-tokio/src/notified.rs vs zlink-smol/src/notified.rs',
               'both crates: continues constants %s, capacity %s, subscription in stream() %s' % (a.get('continues'), a.get('capacity'), a.get('subscribe')),
               'the two crates disagree: tokio %s / smol %s' % (a, b), {'tokio': str(a), 'smol': str(b)})
+    # R20.7 the flag the notified streams put on a reply is the flag the reply carries: Reply's builder stores it unchanged
+    rep.rule('R20.7', 'Reply::set_continues stores the given flag unchanged and Reply::continues returns the stored flag (a filtered or recomputed flag changes how every '
+                      'notification is marked)')
+    core = fx.crate('zlink_core', 'full')
+    n7 = 0
+    for b in core.bodies:
+        if b.in_test or not (b.impl_self or '').startswith('reply::Reply<'):
+            continue
+        if b.name == 'set_continues':
+            n7 += 1
+            stores = [(blk, i_, s_) for blk, i_, s_ in b.iter_assigns() if (mir.place_last_field(s_['place']) or (None, None))[1] == 'continues']
+            ok = len(stores) == 1 and stores[0][2]['rv']['k'] == 'use' and b.trace(stores[0][2]['rv']['op']).get('kind') == 'arg'
+            rep.check(ok, 'R20.7', 'reply::Reply::set_continues|stores-argument', b.where(),
+                      'set_continues stores its argument into the continues member', 'Reply::set_continues does not store the flag it is given unchanged: a one-shot reply '
+                      'built with Some(false) (or a state reply built with Some(true)) goes out with a different marking')
+        if b.name == 'continues':
+            n7 += 1
+            rets = [s_ for blk, i_, s_ in b.iter_assigns() if s_['place']['l'] == 0 and not s_['place'].get('p')]
+            ok = len(rets) == 1 and rets[0]['rv']['k'] == 'use' and (mir.place_last_field(mir.op_place(rets[0]['rv']['op']) or {'p': None}) or (None, None))[1] == 'continues'
+            rep.check(ok, 'R20.7', 'reply::Reply::continues|returns-member', b.where(),
+                      'continues() returns the continues member', 'Reply::continues does not return the stored flag unchanged')
+    if n7 < 2:
+        rep.bad('R20.7', 'anchor', 'zlink-core/src/reply.rs', 'Reply::set_continues / Reply::continues not found')
     return META
